@@ -78,23 +78,34 @@ Definition unlisted_ok (t : tbl) (p : Z * Z) : bool :=
   | None => Qeq_bool (ab_of t z a) 0
   end.
 
+Definition is_some {A} (o : option A) : bool := match o with Some _ => true | None => false end.
+Definition on_tbl (ot : option tbl) (f : tbl -> bool) : bool := match ot with Some t => f t | None => false end.
+
+Lemma the_tbl_some : is_some the_tbl = true.
+Proof. vm_compute. reflexivity. Qed.
+
 Lemma the_tbl_loaded : exists t, the_tbl = Some t.
-Proof. destruct the_tbl eqn:E; [eexists; reflexivity|]. vm_compute in E. discriminate E. Qed.
+Proof. pose proof the_tbl_some as H. destruct the_tbl; [eexists; reflexivity | discriminate H]. Qed.
 
 Lemma blocks_nonempty : (length blocks > 50)%nat.
 Proof. vm_compute. repeat constructor. Qed.
 
+Lemma on_tbl_elim : forall ot f t, on_tbl ot f = true -> ot = Some t -> f t = true.
+Proof. intros ot f t H E. subst ot. exact H. Qed.
+
+Lemma sweep_blocks_c : on_tbl the_tbl (fun t => forallb (block_ok t) blocks) = true.
+Proof. vm_compute. reflexivity. Qed.
+Lemma sweep_weights_c : on_tbl the_tbl (fun t => forallb (weight_ok t) blocks) = true.
+Proof. vm_compute. reflexivity. Qed.
+Lemma sweep_unlisted_c : on_tbl the_tbl (fun t => forallb (unlisted_ok t) (all_isotopes t)) = true.
+Proof. vm_compute. reflexivity. Qed.
+
 Lemma sweep_blocks : forall t, the_tbl = Some t -> forallb (block_ok t) blocks = true.
-Proof. intros t E. assert (H : match the_tbl with Some t => forallb (block_ok t) blocks | None => false end = true)
-  by (vm_compute; reflexivity). rewrite E in H. exact H. Qed.
-
+Proof. intros t E. exact (on_tbl_elim _ _ t sweep_blocks_c E). Qed.
 Lemma sweep_weights : forall t, the_tbl = Some t -> forallb (weight_ok t) blocks = true.
-Proof. intros t E. assert (H : match the_tbl with Some t => forallb (weight_ok t) blocks | None => false end = true)
-  by (vm_compute; reflexivity). rewrite E in H. exact H. Qed.
-
+Proof. intros t E. exact (on_tbl_elim _ _ t sweep_weights_c E). Qed.
 Lemma sweep_unlisted : forall t, the_tbl = Some t -> forallb (unlisted_ok t) (all_isotopes t) = true.
-Proof. intros t E. assert (H : match the_tbl with Some t => forallb (unlisted_ok t) (all_isotopes t) | None => false end = true)
-  by (vm_compute; reflexivity). rewrite E in H. exact H. Qed.
+Proof. intros t E. exact (on_tbl_elim _ _ t sweep_unlisted_c E). Qed.
 
 Theorem abundances_sum_100 :
   forall t, the_tbl = Some t -> forall z l, In (z, l) blocks ->
